@@ -91,6 +91,28 @@ theorem history_call_keeps_globals {G A : Type} (t : Table) (ht : tableOk t = tr
   simp only [step]
   exact ⟨this.2.1, this.2.2.1, this.2.2.2, this.1⟩
 
+/-- **the data pipeline's mask is a function of (shape, file name) only**: `CreateSamplingMask` with
+`use_seed` hands `seedOf filename` to the generator, so two samples of the same file (two slices of a
+volume, in any loading order, in any worker, after any histories, on any generator instance) get the
+same mask -/
+theorem create_sampling_mask_reproducible {G A F : Type} (t : Table) (ht : tableOk t = true) (O : Ops σ Seed Req Val)
+    (body : G → A → Prog Req Val Out) (hb : ∀ g a, SitesIn t.length (body g a)) (seedOf : F → Seed) (fname : F)
+    (h h' : List (Op Seed Req G A)) (g : G) (a : A) (i i' : Nat) (st st' : State σ Val) :
+    observe t O body st (h ++ [.call g a i (transformSeed true seedOf fname)]) =
+    observe t O body st' (h' ++ [.call g a i' (transformSeed true seedOf fname)]) := by
+  simp only [transformSeed, if_true]
+  rw [history_independent t ht O body hb h g a (seedOf fname) i i' st st',
+      history_independent t ht O body hb h' g a (seedOf fname) i' i' st' st']
+
+/-- a call that raises inside the seeded scope is a call whose program stops early: it restores like
+any other (`seeded_call_restores` quantifies over every program), and the next seeded call is
+unaffected -/
+theorem call_after_failed_call {G A : Type} (t : Table) (ht : tableOk t = true) (O : Ops σ Seed Req Val)
+    (body : G → A → Prog Req Val Out) (hb : ∀ g a, SitesIn t.length (body g a))
+    (failing : Op Seed Req G A) (g : G) (a : A) (s : Seed) (i : Nat) (st : State σ Val) :
+    observe t O body st [failing, .call g a i (some s)] = observe t O body st [.call g a i (some s)] :=
+  history_independent t ht O body hb [failing] g a s i i st st
+
 /-! ### ACS branch and mask branch -/
 
 theorem sitesIn_bind {X : Type} {n : Nat} {p : Prog Req Val X} {f : X → Prog Req Val Out}
